@@ -486,6 +486,51 @@ def parse_clauses():
 SPLIT = 5
 
 
+# forms the line-number-program header decoder (read/line.rs parse_attribute; DWARF 5 6.2.4.1 entry formats) accepts
+LINE_FORMS = ['DW_FORM_block1', 'DW_FORM_block2', 'DW_FORM_block4', 'DW_FORM_block', 'DW_FORM_data1', 'DW_FORM_data2',
+              'DW_FORM_data4', 'DW_FORM_data8', 'DW_FORM_data16', 'DW_FORM_udata', 'DW_FORM_sdata', 'DW_FORM_flag',
+              'DW_FORM_sec_offset', 'DW_FORM_string', 'DW_FORM_strp', 'DW_FORM_strp_sup', 'DW_FORM_GNU_strp_alt',
+              'DW_FORM_line_strp', 'DW_FORM_strx', 'DW_FORM_GNU_str_index', 'DW_FORM_strx1', 'DW_FORM_strx2', 'DW_FORM_strx3',
+              'DW_FORM_strx4']
+
+
+def line_clauses():
+    """read/line.rs parse_attribute against the SAME table: whatever form it decodes, it decodes as FORMS says (clauses for
+    ALL forms, vacuous where the line variant rejects the form).  Differences that follow from the context, not the code:
+    no abbreviation (implicit_const has no value, indirect is not a content form -> Err), no attribute name (data4/data8
+    are always constants), and DW_FORM_data16 (MD5) is handed out as a 16-byte view instead of a u128."""
+    out = []
+    HEADL = 'res matches Ok(val) ==> ({ let b0 = old(input).rv(); let p = 0int; '
+    for code, name, kind, pat, cons in FORMS:
+        short = name[8:]
+        if kind in ('indirect', 'implicit'):
+            out.append(f'[C03:line-decode-{short}] form.0 == {code:#x} ==> res is Err')
+            continue
+        if kind in ('data4', 'data8'):
+            n = FIXED[kind]
+            out.append(f'[C03:line-decode-{short}] {HEADL} form.0 == {code:#x} ==> ({{ let o = b0.u(0, {n}); '
+                       f'(val matches AttributeValue::Data{n}(x) && x as nat == o && adv(b0, final(input).rv(), {n})) }}) }})')
+            continue
+        if name == 'DW_FORM_data16':
+            out.append(f'[C03:line-decode-{short}][C10:view] {HEADL} form.0 == {code:#x} ==> '
+                       '(val matches AttributeValue::Block(r) && window(b0, r.rv(), 0, 16) && adv(b0, final(input).rv(), 16)) })')
+            continue
+        cons2 = cons.replace('spec.sform().0 == 0x21 && x == spec.sconst()', 'false')
+        view = '[C10:view]' if 'window' in cons else ''
+        out.append(f'[C03:line-decode-{short}]{view} {HEADL} form.0 == {code:#x} ==> ({{ {operand_lets(kind)} '
+                   f'(val matches {pat} && ({cons2}) && adv(b0, final(input).rv(), n as nat)) }}) }})')
+    out.append('[C03:line-unknown-form] !known_form(form.0 as nat) ==> res is Err')
+    # totality for the accepted subset (where the primitives have an exact error condition)
+    for c in total_clauses():
+        m = re.match(r'\[C03:decode-total-(\w+)\] spec\.sform\(\)\.0 == ', c)
+        if 'DW_FORM_' + m.group(1) in LINE_FORMS and 'sec_offset_attr' not in c:
+            out.append(c.replace('[C03:decode-total-', '[C03:line-decode-total-').replace('spec.sform().0 ==', 'form.0 =='))
+    for n in (4, 8):
+        out.append(f'[C03:line-decode-total-data{n}] form.0 == {0x06 if n == 4 else 0x07:#x} ==> (old(input).rv().len >= {n} ==> res is Ok)')
+    out.append('[C01:frame] within(old(input).rv(), final(input).rv())')
+    return out
+
+
 def size_clauses():
     out = []
     for code, name, kind, _, _ in FORMS:
@@ -684,6 +729,20 @@ use crate::aspec::*;''')
                       'proof { lemma_cstr_len0(v0, string.rv().len); let b0 = old(input).rv(); let p0 = v0.start - b0.start; '
                       'assert forall|j: int| p0 <= j < p0 + string.rv().len implies #[trigger] b0.at(j) != 0 by { assert(v0.at(j - p0) != 0); } }')])
     sk.add('read::unit', pa)
+
+    # ---- read::line: the line-table variant of the decode switch (form subset, no indirection, no abbreviation)
+    ln = Source('read/line.rs', ctx)
+    sk.mods['read']['uses'] += '\npub use self::line::*;' if 'read::line' not in sk.mods else ''
+    sk.module('read::line', '''use crate::common::*;
+use crate::constants;
+use crate::read::{AttributeValue, Error, Expression, Reader, ReaderOffset, Result, UnitOffset};
+use crate::vspec::*;
+use crate::aspec::*;''')
+    lpa = ln.item(r'^fn parse_attribute<').clean()
+    lpa.splice('parse_attribute', ret='res', ensures=line_clauses(), owners=OWN,
+               before=[('let string = input.read_null_terminated_slice()?;', 'let ghost v0 = input.rv();')],
+               after=[('let string = input.read_null_terminated_slice()?;', 'proof { lemma_cstr_len0(v0, string.rv().len); }')])
+    sk.add('read::line', lpa)
 
     # ---- skip == read (one-directional, DESIGN C03): when skipping succeeds it has consumed exactly what reading the
     # attributes one by one consumes (attrs_end is built from the same generated size functions as [C03:read-len]).
